@@ -1078,13 +1078,26 @@ func genHistory(r *gen.Rng, c msgCfg, steps int) []histOp {
 			ops = append(ops, histOp{op: "set", ids: []int{id}, val: string(r.From([]byte("ABCxyz019"), 1+r.Intn(5)))})
 		case 3, 4:
 			id := pickCur()
+			if r.Intn(6) == 0 {
+				id = 1 // the bitmap field itself: it is regenerated, the data elements stay
+			}
 			delete(cur, id)
 			ops = append(ops, histOp{op: "unset", ids: []int{id}})
 		case 5:
 			a, b := pickCur(), gen.Pick(r, usable)
+			switch r.Intn(6) {
+			case 0:
+				b = 1
+			case 1:
+				a, b = 1, 1
+			}
 			delete(cur, a)
 			delete(cur, b)
-			ops = append(ops, histOp{op: "unsets", ids: []int{a, b}})
+			if a == b {
+				ops = append(ops, histOp{op: "unsets", ids: []int{a}})
+			} else {
+				ops = append(ops, histOp{op: "unsets", ids: []int{a, b}})
+			}
 		case 6:
 			w := map[int]string{}
 			for k := r.Intn(4); k > 0; k-- {
